@@ -404,9 +404,10 @@ func luckyZero(c *lib.Ctx, r *lib.Rand, n int) {
 
 // ---------------------------------------------------------------- ntimed generator
 
-var two51 = new(big.Int).Lsh(big.NewInt(1), 51)
+var two50 = new(big.Int).Lsh(big.NewInt(1), 50)
 
-// ntimedBoundOK: (|out - raw| - 1) * 2^51 <= |a| + |b| with a = cTx - sRx, b = cRx - sTx,
+// ntimedBoundOK: the bound certified by C17_ntimed_raw_close,
+//   (|out - raw| - 1) * 2^50 <= |a| + |b|   with a = cTx - sRx, b = cRx - sTx,
 // on the domain |a|, |b| < 2^62 (no saturation, no wrap); ok=false outside the domain.
 func ntimedBoundOK(s sample, out int64) (within bool, ok bool) {
 	a := new(big.Int).Sub(big.NewInt(s.t0), big.NewInt(s.t1))
@@ -420,7 +421,7 @@ func ntimedBoundOK(s sample, out int64) (within bool, ok bool) {
 	e := new(big.Int).Sub(big.NewInt(out), raw)
 	e.Abs(e)
 	e.Sub(e, big.NewInt(1))
-	e.Mul(e, two51)
+	e.Mul(e, two50)
 	return e.Cmp(new(big.Int).Add(a, b)) <= 0, true
 }
 
@@ -573,11 +574,11 @@ func ntimedHistory(c *lib.Ctx, r *lib.Rand, kind int, length int) {
 					}
 					c.Fail(sig, "Ntimed output is not the raw offset (within the float bound) although fewer than four samples were seen since reset / no limit is violated",
 						histTail(hist, 60), map[string]any{"out": out[0], "raw": raw, "since_reset": since, "failLo": failLo, "failHi": failHi})
-				} else if sgn(out[0]) != sgn(raw) && out[0] != 0 && raw != 0 {
-					// opposite strict signs are only possible inside the error bound
-					e := new(big.Int).Sub(big.NewInt(out[0]), big.NewInt(raw))
-					c.Count("ntimed:oracle:sign-flip-inside-bound")
-					_ = e
+				} else if sgn(out[0]) == sgn(raw) {
+					c.Count("ntimed:oracle:sign-agrees")
+				} else {
+					// differing signs are only possible inside the error bound (C17_ntimed_raw_sign)
+					c.Count("ntimed:oracle:sign-differs-inside-bound")
 				}
 			}
 		} else {
@@ -611,7 +612,7 @@ func gen(c *lib.Ctx) {
 
 	// boundary stream: every capacity 1..10 (and 0, -1) x every pick 0..12 (and -1)
 	rl := r.Fork("lucky")
-	reps := c.Scale(1, 6)
+	reps := c.Scale(3, 30)
 	for rep := 0; rep < reps; rep++ {
 		for capN := -1; capN <= 10; capN++ {
 			for pick := -1; pick <= 12; pick++ {
@@ -626,7 +627,7 @@ func gen(c *lib.Ctx) {
 			luckyHistory(c, rl, capN, int(rl.Range(1, 12)), kind, 4*capN+10)
 		}
 	}
-	luckyZero(c, rl, c.Scale(200, 2000))
+	luckyZero(c, rl, c.Scale(500, 5000))
 	// larger windows still below the insertion-sort threshold of slices.SortFunc (12)
 	for _, capN := range []int{11, 12} {
 		for _, kind := range []int{0, 1, 6} {
@@ -635,7 +636,7 @@ func gen(c *lib.Ctx) {
 	}
 
 	rn := r.Fork("ntimed")
-	n := c.Scale(60, 600)
+	n := c.Scale(600, 6000)
 	for i := 0; i < n; i++ {
 		kind := []int{0, 0, 0, 0, 2, 1, 3, 4, 5, 0}[i%10]
 		ntimedHistory(c, rn, kind, int(rn.Range(5, 70)))
